@@ -762,6 +762,25 @@ impl TxMessage<'_> {
                 Some(session.get_peer_idle_interval_ms()),
             )?;
 
+            // A retransmission is produced by running the message builder again and goes out
+            // under the message counter (= nonce) of the original: never let a rebuilt payload
+            // that differs from the original reach the wire.
+            let digest = payload_digest(
+                &meta,
+                &self.packet.buf
+                    [PacketHdr::HDR_RESERVE + payload_start..PacketHdr::HDR_RESERVE + payload_end],
+            );
+            if let Err(e) =
+                session.check_retrans_payload(self.exchange_id.exchange_index(), digest)
+            {
+                error!(
+                    "Exchange {}: the retransmission differs from the original message; not sent",
+                    self.exchange_id.display(session)
+                );
+
+                return Err(e);
+            }
+
             self.packet.peer = peer;
             self.packet.payload_start = PacketHdr::HDR_RESERVE + payload_start;
             self.packet
@@ -776,6 +795,27 @@ impl TxMessage<'_> {
             Ok(())
         })
     }
+}
+
+/// 64-bit FNV-1a over the protocol id, the opcode and the payload of a message
+/// (not a cryptographic hash: it guards against message builders that are not idempotent).
+fn payload_digest(meta: &MessageMeta, payload: &[u8]) -> u64 {
+    const OFFSET: u64 = 0xcbf2_9ce4_8422_2325;
+    const PRIME: u64 = 0x0000_0100_0000_01b3;
+
+    let mut hash = OFFSET;
+    for byte in meta
+        .proto_id
+        .to_le_bytes()
+        .iter()
+        .chain(core::iter::once(&meta.proto_opcode))
+        .chain(payload.iter())
+    {
+        hash ^= *byte as u64;
+        hash = hash.wrapping_mul(PRIME);
+    }
+
+    hash
 }
 
 /// Outcome from calling `Exchange::wait_tx`
